@@ -28,7 +28,7 @@ ASSUMPTIONS = [
 ]
 NOT_REACHED = ["all-zero vertical components", "fft_settings={'n': None} with odd window lengths in the PSD path",
                "windows longer than 70000 samples"]
-BUDGET = {"quick": dict(cases=900, seconds=70, shards=4),
+BUDGET = {"quick": dict(cases=2000, seconds=70, shards=4),
           "thorough": dict(cases=120000, seconds=600, shards=16)}
 REQUIRED = ["mon:reference-pipeline", "mon:closed-form", "mon:common-factor-pow2-bit-identical",
             "mon:horizontal-factor-linear", "mon:vertical-factor-inverse", "mon:alias-bit-identical",
